@@ -286,8 +286,36 @@ def run_reject(case):
     return [("reject", f"geometry {s} has no well IDs for every row but was constructed")]
 
 
+def run_helpers(case):
+    """the well-array helpers of robotools.transform agree with the labware's own `wells` / `indices` - also after a caller
+    has overwritten, in place, what an earlier call of the helpers handed out (results must not share state between calls)"""
+    from robotools import Labware
+    from robotools.transform import make_well_array, make_well_index_dict
+
+    R, C = case["rows"], case["columns"]
+    letters = "ABCDEFGHIJKLMNOPQRSTUVWXYZ"
+    ids = [[f"{letters[r]}{c + 1:02d}" for c in range(C)] for r in range(R)]
+    want = {ids[r][c]: (r, c) for r in range(R) for c in range(C)}
+    for rnd in (1, 2, 3):
+        lw = Labware("L", R, C, min_volume=0, max_volume=10)
+        a, d = make_well_array(R, C), make_well_index_dict(R, C)
+        after = " after the caller overwrote the result of an earlier call" if rnd > 1 else ""
+        if [list(map(str, row)) for row in a] != ids or [list(map(str, row)) for row in lw.wells] != ids:
+            return [("helpers", f"make_well_array({R},{C}) / Labware.wells differ from the row-letter + 2-digit-column ids{after}")]
+        if dict(d) != want or {k: tuple(v) for k, v in lw.indices.items()} != want:
+            return [("helpers", f"make_well_index_dict({R},{C}) / Labware.indices differ from id -> (row, column){after}")]
+        if rnd == 1:
+            a[...] = "Z99"
+            d.clear()
+        elif rnd == 2:
+            a[0, 0] = "B07"
+            d["A01"] = (R, C)
+            d["ZZ9"] = (0, 0)
+    return []
+
+
 def run_case(case):
-    return {"geom": run_geom, "records": run_records, "badid": run_badid, "reject": run_reject}[case["kind"]](case)
+    return {"geom": run_geom, "records": run_records, "badid": run_badid, "reject": run_reject, "helpers": run_helpers}[case["kind"]](case)
 
 
 # ---------------------------------------------------------------- generators
@@ -414,13 +442,22 @@ def gen_records(tier, seed):
         yield case
 
 
+def gen_helpers(tier):
+    rows = (1, 2, 8, 16, 26) if tier == "quick" else range(1, 27)
+    cols = (1, 2, 12, 24, 99, 100) if tier == "quick" else (1, 2, 3, 9, 10, 11, 12, 24, 48, 99, 100, 120)
+    for r in rows:
+        for c in cols:
+            yield {"kind": "helpers", "rows": r, "columns": c}
+
+
 def generate(tier, seed):
-    for name, gen in (("geometry sweep", gen_geom(tier)), ("bad / out-of-range IDs", gen_badid(tier)), ("random records", gen_records(tier, seed))):
+    for name, gen in (("well-array helpers", gen_helpers(tier)), ("geometry sweep", gen_geom(tier)), ("bad / out-of-range IDs", gen_badid(tier)), ("random records", gen_records(tier, seed))):
         for case in gen:
             yield name, case
 
 
-BOUNDS = {"bad / out-of-range IDs": "11 (thorough 29) geometries x ~30 malformed IDs x 6 well-list shapes x {aspirate, dispense, distribute, evo_aspirate, evo_dispense, transfer source, get_well_position} x both devices x with/without label / zero volume",
+BOUNDS = {"well-array helpers": "make_well_array / make_well_index_dict vs Labware.wells / indices for rows x columns grids (quick 5x6, thorough 26x12 shapes), three rounds with the earlier results overwritten in place in between",
+          "bad / out-of-range IDs": "11 (thorough 29) geometries x ~30 malformed IDs x 6 well-list shapes x {aspirate, dispense, distribute, evo_aspirate, evo_dispense, transfer source, get_well_position} x both devices x with/without label / zero volume",
           "random records": "seeded random (quick 2500, thorough 60000): geometry rows<=26 x columns<=120, troughs <=26x24, 1..12 wells with repeats and boundary columns, 2-D well arguments, same-labware transfers",
           "geometry sweep": "plates rows 1..26 x columns (quick 14 values <=120, thorough 1..120); troughs virtual_rows 1..26 x columns (quick 7 values, thorough 1..24) as Trough and as Labware(virtual_rows); rows 27..40 rejected"}
 
